@@ -3,13 +3,14 @@ The set of excused <<clause, site>> pairs is generated from known_findings.txt (
 import os, re, sys
 import vlib
 
-# (MaxTx, MaxCalls, MaxAvail, AutoDestroy, CbFail)
+# (MaxTx, MaxCalls, MaxAvail, AutoDestroy, CbFail[, Gaps]); Gaps: data calls may announce a stream gap (data = NULL, len > 0)
 QUICK = [
     (2, 4, 1, False, ()),
     (2, 3, 1, True, ()),
     (3, 4, 1, False, ()),
     (2, 3, 1, False, ("request_headers", "response_complete", "transaction_complete", "response_body_data", "request_line")),
     (2, 3, 1, True, ("request_start", "response_headers", "request_complete", "request_body_data", "response_line")),
+    (2, 3, 1, False, (), True),
 ]
 HA = ("request_headers", "response_complete", "transaction_complete", "response_body_data", "request_line")
 HB = ("request_start", "response_headers", "request_complete", "request_body_data", "response_line")
@@ -22,6 +23,8 @@ THOROUGH = QUICK + [
     (2, 3, 2, True, ("request_headers", "response_complete", "transaction_complete")),      # 16 M states
     (3, 4, 1, True, ("request_headers", "response_body_data", "request_complete", "response_start")),
     (2, 4, 2, False, ()),                         # 88 M states, ~20 min
+    (2, 4, 1, False, (), True),
+    (2, 3, 1, True, ("request_headers", "response_complete", "response_body_data", "request_body_data"), True),
 ]
 ALL_PLAIN = ["C05", "C09", "C16", "C10"]          # properties whose clauses are invariants of the model
 ALL_CBFAIL = ["C09", "C16"]                       # C05 / C10 are not quantified over callback results
@@ -52,13 +55,14 @@ def run_parser_model(ctx, props, cbfail_ok=True):
     os.makedirs(CACHE, exist_ok=True)
 
     def explore(i, c, invs, tag):
-        mt, mc, ma, ad, cf = c
+        mt, mc, ma, ad, cf = c[:5]
+        gaps = len(c) > 5 and c[5]
         name = "pmc_%d%s" % (i, tag)
         cfgp = os.path.join(d, name + ".cfg")
         open(cfgp, "w").write(
-            "CONSTANTS MaxTx = %d  MaxCalls = %d  MaxAvail = %d  AutoDestroy = %s  FixD4 = TRUE  TraceMode = FALSE\n"
+            "CONSTANTS MaxTx = %d  MaxCalls = %d  MaxAvail = %d  AutoDestroy = %s  FixD4 = TRUE  TraceMode = FALSE  Gaps = %s\n"
             " CbFail = {%s}\n Known <- KnownSet\nSPECIFICATION Spec\nINVARIANTS %s TypeOK\nVIEW View\nCHECK_DEADLOCK FALSE\n"
-            % (mt, mc, ma, "TRUE" if ad else "FALSE", ", ".join('"%s"' % x for x in cf), " ".join(invs)))
+            % (mt, mc, ma, "TRUE" if ad else "FALSE", "TRUE" if gaps else "FALSE", ", ".join('"%s"' % x for x in cf), " ".join(invs)))
         r = vlib.run_tlc(ctx, "HtpParserMC", cfgp, workers=4 if ctx.quick else 8, timeout=600 if ctx.quick else 5000, xmx="6g" if ctx.quick else "16g",
                          name=name, cwd=d, coverage=(c in QUICK))      # TLC's coverage collection slows the large thorough configurations several times
         if r.error:
@@ -98,7 +102,7 @@ def run_parser_model(ctx, props, cbfail_ok=True):
             never = "actions never taken in config %s: %s" % (c, e["dead"])
     return {"distinct": distinct, "generated": generated, "vacuous": never, "shared_results_reused": sum(1 for e in res if e.get("cached")),
             "what": "HtpParser.tla + HtpObs clauses %s as invariants over %d bounded configurations (MaxTx, MaxCalls, MaxAvail, AutoDestroy, CbFail): %s"
-                    % (" ".join(own), len(cfgs), [c[:4] + (len(c[4]),) for c in cfgs])}
+                    % (" ".join(own), len(cfgs), [c[:4] + (len(c[4]),) + (("gaps",) if len(c) > 5 and c[5] else ()) for c in cfgs])}
 
 
 # (MaxTx, QUnits, SUnits, MaxAvail, AutoDestroy)
@@ -114,7 +118,7 @@ def run_driver_liveness(ctx):
     def one(i):
         mt, qu, su, ma, ad = cfgs[i]
         cfgp = os.path.join(d, "live_%d.cfg" % i)
-        open(cfgp, "w").write("CONSTANTS MaxTx = %d  MaxCalls <- NoCallBound  MaxAvail = %d  AutoDestroy = %s  FixD4 = TRUE  TraceMode = FALSE\n CbFail = {}\n Known = {}\n QUnits = %d  SUnits = %d\n"
+        open(cfgp, "w").write("CONSTANTS MaxTx = %d  MaxCalls <- NoCallBound  MaxAvail = %d  AutoDestroy = %s  FixD4 = TRUE  TraceMode = FALSE  Gaps = FALSE\n CbFail = {}\n Known = {}\n QUnits = %d  SUnits = %d\n"
                               "SPECIFICATION FairDSpec\nINVARIANT DrvTypeOK\nPROPERTY CallerProgress\nCHECK_DEADLOCK FALSE\n" % (mt, ma, "TRUE" if ad else "FALSE", qu, su))
         return vlib.run_tlc(ctx, "HtpDriver", cfgp, workers=16 if ctx.quick else 8, timeout=1200 if ctx.quick else 6000, xmx="12g", name="live_%d" % i, cwd=d)
     res = vlib.pmap(one, range(len(cfgs)), nproc=2)
